@@ -4,6 +4,7 @@ import EaselModel.Weights.Model
 import EaselModel.Weights.Adv
 import EaselModel.Weights.Deal64
 import EaselModel.Weights.Tree
+import EaselModel.Weights.Engine
 import EaselModel.Weights.Distance
 /-! Line-protocol driver for the C16 model (`Float` instance of `EaselModel.Weights`). Mirrors harness/h_weights.c. -/
 open EaselModel EaselModel.Proto EaselModel.Weights EaselModel.Random
@@ -206,6 +207,37 @@ def step (s : S) (line : String) : S × String :=
       if ws.head? == some "avgid" then (s, s!"ok {fbits (averageId (α := Float) s.m rows maxc sampled)}")
       else (s, s!"ok {fbits (averageMatch (α := Float) s.m rows maxc sampled)}")
     | none => (s, "bad-op")
+  | "jcmx" :: _ =>
+    let K := if s.mode == 0 then (argNat? ws "k").getD 4 else s.abc.K
+    if !ready || K < 2 then (s, "bad-op") else
+    match jukesCantorMx (α := Float) s.jc K rows with
+    | .error .einval => (s, "einval")
+    | .error _ => (s, "edivzero")
+    | .ok mx =>
+      let inf := Float.ofBits 0x7ff0000000000000
+      let dv := fun (r : JCResult Float) => match r with | .ok d v => (d, v) | _ => (inf, inf)
+      (s, s!"ok d={dlist (mx.flatMap fun row => row.map fun r => (dv r).1)} v={dlist (mx.flatMap fun row => row.map fun r => (dv r).2)}")
+  | "avgconn" :: _ | "avgsub" :: _ =>
+    match argNat? ws "max" with
+    | some maxc =>
+      if !ready || maxc < 1 || s.mode == 0 then (s, "bad-op") else
+      let th := argBits ws "th"
+      let sub := ws.head? == some "avgsub"
+      let V : Option (List Nat) :=
+        if !sub then some (List.range rows.length)
+        else match arg? ws "v" with
+          | some "-" => some []
+          | some v => (v.splitOn ",").mapM String.toNat?
+          | none => none
+      match V with
+      | none => (s, "bad-op")
+      | some V =>
+        if V.any (· ≥ rows.length) then (s, "bad-op") else
+        let n := V.length
+        let sampled := if n ≤ 1 || exhaustive n maxc then [] else samplePairs n maxc (Rng.create .mersenne 42) []
+        let r := avgSubsetConnectivity (α := Float) (pid s.m) rows V maxc th sampled
+        (s, s!"ok {fbits r.1} {fbits r.2}")
+    | none => (s, "bad-op")
   | "upgma" :: _ =>
     match argNat? ws "n", arg? ws "d" with
     | some n, some dl =>
@@ -214,11 +246,14 @@ def step (s : S) (line : String) : S × String :=
       if n < 2 || ds.size != n * (n - 1) / 2 then (s, "bad-op") else
       -- upper triangle, row-major: entry (x, y), x < y, sits at x*n - x*(x+1)/2 + (y - x - 1)
       let d := fun (x y : Nat) => ds.getD (x * n - x * (x + 1) / 2 + (y - x - 1)) 0.0
-      let st := upgma (α := Float) n d
+      let lk := (argNat? ws "link").getD 0
+      if lk > 3 then (s, "bad-op") else
+      let L : Link := if lk == 0 then .upgma else if lk == 1 then .wpgma else if lk == 2 then .single else .complete
+      let st := linkTree (α := Float) L n d
       let t := toCTree n st
       let il := fun (xs : List Int) => ",".intercalate (xs.map toString)
       let valid := wellFormedB n st.nodes.reverse && st.nodes.all fun nd => !(nd.l < 0.0) && !(nd.r < 0.0)
-      (s, s!"ok valid={if valid then 1 else 0} left={il t.left} right={il t.right} parent={il t.parent} ld={dlist t.ld} rd={dlist t.rd} tp={il t.taxaparent} cs={nlist t.cladesize}")
+      (s, s!"ok valid={if valid then 1 else 0} N={n} lt={if L.isLinkage then 1 else 0} left={il t.left} right={il t.right} parent={il t.parent} ld={dlist t.ld} rd={dlist t.rd} tp={il t.taxaparent} cs={nlist t.cladesize}")
     | _, _ => (s, "bad-op")
   | "deal64" :: _ =>
     match argNat? ws "m", argNat? ws "n" with
